@@ -698,6 +698,8 @@ def run(ctx, res):
     graph_ok = c14eval.report_graph(ctx, res)
     walker_ok = c14eval.report_walker(ctx, res)
     c14eval.report_prepend(ctx, res)
+    from . import c12eval
+    c12eval.report_files_only(ctx, res)
     if not graph_ok:
         rule_once(ctx, res)
     rule_visitor(ctx, res)
